@@ -87,7 +87,7 @@ func (g *idGhost) take(scope string) uint64 {
 }
 
 // Independent formatters of the documented formats.
-func fmtClass(abbrev string, n uint64) string   { return fmt.Sprintf("%s%02d", abbrev, n) }
+func fmtClass(abbrev string, n uint64) string    { return fmt.Sprintf("%s%02d", abbrev, n) }
 func fmtProject(classID string, n uint64) string { return fmt.Sprintf("%s-%03d", classID, n) }
 
 func (m *C14) OnStep(gh explore.Ghost, st *explore.Step) []V {
